@@ -26,7 +26,7 @@ def record_one(arg):
         sc = qscen.build(seed, family)
         rec = Recorder(sc.mc, sc.fresh, meta=sc.meta, on_yield=sc.controller)
         rec.veto_active = sc.veto_active
-        tr = rec.run(sc.steps)
+        tr = rec.run(sc.steps, edit=getattr(sc, "edit", None), steps2=getattr(sc, "steps2", 0), reset_energy=getattr(sc, "reset_energy", True))
         try:
             sc.mc.close()
         except Exception:  # noqa: BLE001
